@@ -4,7 +4,7 @@
    types, fields and corrupted lengths, transfer-port garbage, claimed transfers broken off, uploads declaring up
    to 1 MiB).  Afterwards:
    obs [exit status of the server process; sentinel answered every probe; registry size; connected counter;
-        downloads in progress; uploads in progress; a probe took longer than 2 s?]
+        downloads in progress; uploads in progress; a probe took longer than 5 s?]
    The model's prediction is the containment statement itself. *)
 From Coq Require Import List NArith.
 From Verif Require Import Base.Bytes Corr.Case.
